@@ -1,6 +1,6 @@
 (* C03 -- Safe modes confine output (partial: see MANIFEST level text).  Property theorems only. *)
 From Rimu Require Import Base Unicode Regex RegexAnalysis RegexParse Str Types Tables Guards State Inline Block
-  Frame FrameBlock FrameInst OptionsLemmas MiscLemmas MoreLemmas Plain TableFacts.
+  Frame FrameBlock FrameInst OptionsLemmas MiscLemmas MoreLemmas Plain TableFacts HtmlTag.
 
 (* escaped text contains no raw < or >, and every & starts one of the three entities *)
 Theorem C03_escape_confined : forall s, ~ In 60 (escape s) /\ ~ In 62 (escape s).
@@ -49,3 +49,14 @@ Print Assumptions C03_plain_text_escaped.
 
 Example C03_ex : escape $"a<b>&c" = $"a&lt;b&gt;&amp;c".
 Proof. vm_compute. reflexivity. Qed.
+
+(* an inline tag in plain text under the drop and escape policies: no raw angle bracket reaches the output -- for every
+   surrounding text over letters, digits, blank, full stop and comma and every tag name, of any length *)
+Theorem C03_inline_tag_confined : forall n s pre name post out log,
+  defaults s -> RegexAnalysis.over word_alphabet pre -> name_ok2 name -> RegexAnalysis.over word_alphabet name ->
+  RegexAnalysis.over word_alphabet post ->
+  (html_policy (en_mode s) = PDrop \/ html_policy (en_mode s) = PEscape) ->
+  spans_render (S (S (S (S n)))) s (pre ++ 60 :: name ++ 62 :: post) = Ok (out, log) ->
+  ~ In 60 out /\ ~ In 62 out.
+Proof. exact inline_tag_confined. Qed.
+Print Assumptions C03_inline_tag_confined.
